@@ -375,6 +375,10 @@ func GenPlan(prop string, seed uint64, tier string) *Plan {
 			op := COp{Gap: gap(p.Stab), Key: mine[r.Intn(len(mine))], Entry: r.Intn(n), Retry: r.Chance(0.5)}
 			op.Kind = pick(r, "put", "put", "put", "get", "get", "del", "pappend", "pappend", "premove", "plist", "pcontains")
 			op.Arg = r.Intn(3)
+			if prop == "C05" && r.Chance(0.12) {
+				// leases are a key's data like values and children: a held lease travels with its key
+				op.Kind, op.TTL = "acquire", time.Hour
+			}
 			cs.Ops = append(cs.Ops, op)
 		}
 		p.Clients = append(p.Clients, cs)
